@@ -294,6 +294,15 @@ func init() {
 			return &Scenario{Name: "codec-pairs5-" + en, Doc: "the same over versions 1.0..1.4", Body: codecPairs(en, msg.Versions), MaxSteps: 2000000000}
 		})
 	}
+	// the same type first used by two threads at once (decode || decode, encode || encode), well-formed and malformed input
+	cs([]string{"dec-req12-ttlv"}, []string{"dec-req12-ttlv"})
+	cs([]string{"dec-resp13-xml"}, []string{"dec-resp13-xml"})
+	cs([]string{"dec-create14-json"}, []string{"dec-create14-json"})
+	cs([]string{"enc-req14-ttlv"}, []string{"enc-req14-ttlv"})
+	cs([]string{"enc-resp14-xml"}, []string{"enc-resp14-xml"})
+	cs([]string{"dec-trunc-req12-ttlv"}, []string{"dec-req12-ttlv"})
+	cs([]string{"dec-trunc-resp13-xml"}, []string{"dec-trunc-resp13-xml"})
+	cs([]string{"dec-trunc-create14-json"}, []string{"dec-create14-json"})
 	cs([]string{"enc-req10-ttlv"}, []string{"enc-req14-ttlv"})
 	cs([]string{"enc-req10-ttlv"}, []string{"dec-req12-ttlv"})
 	cs([]string{"enc-resp14-xml"}, []string{"enc-resp12-json"})
